@@ -6,6 +6,7 @@
 package main
 
 import (
+	"fmt"
 	"math"
 	"sort"
 )
@@ -53,14 +54,18 @@ func crossingOK(va, vb, t, tolT float64) bool {
 // explain2 checks one 2D endpoint against the lattice and values. val returns the value at corner (i,j).
 func explain2(l *lattice2, val func(i, j int) (float64, bool), x, y float64) (bool, string) {
 	cs := l.cellSize()
-	tol := 1e-9 * math.Min(cs.X, cs.Y)
+	// a renderer may form a cell's corners as origin+size while it samples at base+i*size: the two differ by rounding
+	// at the magnitude of the coordinates, not of the cell
+	mag := math.Max(math.Max(math.Abs(l.xs[0]), math.Abs(l.xs[len(l.xs)-1])), math.Max(math.Abs(l.ys[0]), math.Abs(l.ys[len(l.ys)-1])))
+	tol := 1e-9*math.Min(cs.X, cs.Y) + 64*2.3e-16*mag
 	ilo, ihi, onx, okx := axisLocate(l.xs, l.stride, x, tol)
 	jlo, jhi, ony, oky := axisLocate(l.ys, l.stride, y, tol)
 	if !okx || !oky {
 		return false, "outside the sampled lattice"
 	}
 	if !onx && !ony {
-		return false, "not on any lattice line"
+		return false, fmt.Sprintf("not on any lattice line (nearest lines: x %.3g, y %.3g away; cell %.3g x %.3g)",
+			math.Min(math.Abs(x-l.xs[ilo*l.stride]), math.Abs(x-l.xs[ihi*l.stride])), math.Min(math.Abs(y-l.ys[jlo*l.stride]), math.Abs(y-l.ys[jhi*l.stride])), cs.X, cs.Y)
 	}
 	cx, cy := l.cells()
 	try := func(i0, j0, i1, j1 int, t float64, length float64) bool {
@@ -90,7 +95,11 @@ func explain2(l *lattice2, val func(i, j int) (float64, bool), x, y float64) (bo
 // explain3 checks one 3D vertex.
 func explain3(l *lattice3, val func(i, j, k int) (float64, bool), x, y, z float64) (bool, string) {
 	cs := l.cellSize()
-	tol := 1e-9 * cs.MinComponent()
+	mag := 0.0
+	for _, ax := range [][]float64{l.xs, l.ys, l.zs} {
+		mag = math.Max(mag, math.Max(math.Abs(ax[0]), math.Abs(ax[len(ax)-1])))
+	}
+	tol := 1e-9*cs.MinComponent() + 64*2.3e-16*mag // see explain2
 	var lo, hi [3]int
 	var on [3]bool
 	p := [3]float64{x, y, z}
